@@ -568,6 +568,7 @@ ORACLES = [
     Oracle("c03.events", gen_oracle_events, check_events, covered=covered_events, from_ops=EVENT_OPS),
 ]
 
+
 # ------------------------------------------------------------------ known findings: replay on the real code (object level)
 from dataclasses import dataclass, field  # noqa: E402
 from typing import List, Optional  # noqa: E402
